@@ -17,6 +17,41 @@ use std::collections::VecDeque;
 use std::rc::Rc;
 use util::*;
 
+/// SLOW GLIDE: the playback ratio creeps by 2^-36 per output (r_k = 1/2 + k 2^-36: every ratio, every partial sum and
+/// every accumulator value is an exact dyadic, so P_n is known exactly) for 2^21 outputs through `mul_hz` and through
+/// `set_playback_hz_scale`. Whatever a converter does to avoid "redundant" ratio updates, position P_n = r_0 + .. + r_(n-1)
+/// must hold: the floor output is source frame floor(P_n) and exactly floor(P_n) frames were pulled (oracle only).
+fn slow_glide(st: &mut Stream) {
+    const N: u64 = 1 << 21;
+    const D: u32 = 36;
+    for via_mul_hz in [true, false] {
+        let case = format!("slow glide: floor interpolator over the ramp 0,1,2,.. ; ratio r_k = 1/2 + k*2^-{} set before output k via {}, {} outputs", D, if via_mul_hz { "mul_hz" } else { "set_playback_hz_scale" }, N);
+        mark(0, &case);
+        let pulls = Rc::new(Cell::new(0u64));
+        let len = (N / 2 + (N * N >> (D + 1)) + 8) as usize;
+        let mut src = Counted { inner: signal::from_iter((0..len as i32).map(|i| [i])), pulls: pulls.clone() };
+        let first = src.next();
+        let ratio = |k: u64| 0.5 + k as f64 / (1u64 << D) as f64;
+        let mut bad: Option<String> = None;
+        let mut p: u128 = 0;                                   // P_n in units of 2^-60
+        let mut check = |n: u64, frame: [i32; 1], p: u128| -> Option<String> {
+            let fl = (p >> 60) as i32;
+            if frame[0] != fl || pulls.get() != 1 + fl as u64 { Some(format!("output {}: frame {} after {} pulls, expected source frame floor(P_n) = {} after {} pulls", n, frame[0], pulls.get(), fl, 1 + fl as u64)) } else { None }
+        };
+        if via_mul_hz {
+            let mut k = 0u64;
+            let control = signal::gen_mut(move || { let r = ratio(k); k += 1; r });
+            let mut s = src.mul_hz(Floor::new(first), control);
+            for n in 0..N { let f = s.next(); if bad.is_none() { bad = check(n, f, p); } p += (ratio(n) * (1u128 << 60) as f64) as u128; }
+        } else {
+            let mut c = Converter::scale_playback_hz(src, Floor::new(first), 0.5);
+            for n in 0..N { c.set_playback_hz_scale(ratio(n)); let f = c.next(); if bad.is_none() { bad = check(n, f, p); } p += (ratio(n) * (1u128 << 60) as f64) as u128; }
+        }
+        st.count("slow_glide_2^21_outputs");
+        match bad { None => st.oracle_ok(N), Some(b) => st.oracle_fail("slowly gliding ratio: the converter's position is not the sum of the ratios in effect", &case, "", &b) }
+    }
+}
+
 fn main() {
     let a = Args::parse();
     match a.stream.as_str() {
@@ -534,6 +569,7 @@ fn emit<F: Fr>(c: &Case<F>, st: &mut Stream) where F::Sample: dasp_sample::Duple
 fn run(a: &Args) {
     let mut st = Stream::new(&a.out, "conv");
     let mut rng = Rng::new(a.seed, "conv");
+    slow_glide(&mut st);
     let reps = if a.thorough() { 150 } else { 6 };
     // fixed corner cases: constructor assertion, the doc examples' ratio 0.5 on 3-4 frames
     for &s in &[0.0, -1.0, f64::NAN] {
